@@ -462,3 +462,119 @@ MUTANTS += [
     {"id": "C06-char-debug-of-encoded-str", "prop": "C06", "expect": "CHAR-VERBATIM/",
      "edits": [(E, _CHAR_ARM, 'Char(c) => write!(out, "{:?}", c.encode_utf8(&mut [0u8; 4]))?,')]},
 ]
+
+# ---- APPLY-PRODUCT: fields of ONE modification combined (reset + underline + colours + flags), seeded/C06-H
+_APPLY_HEAD = """    pub fn apply(&self, mut face: Face) -> Face {
+        if self.reset {
+            face = Face::default();
+        }
+"""
+_APPLY_UNDERLINE = """        if let Some(underline) = self.underline {
+            face.attrs = FaceAttrs::pack(underline, face.attrs.unpack().1);
+        }
+"""
+_APPLY_WHOLE = _APPLY_HEAD + _APPLY_FG_BG + _APPLY_UNDERLINE + "        // TODO: underline_color\n" + _APPLY_LOOP + "        face\n    }\n"
+
+
+def _apply_expr(flags_from, colours_from="base"):
+    # the expression-style rewrite of seeded/C06-H; flags_from="base" is the correct refactoring, "face" the seed
+    return """    pub fn apply(&self, face: Face) -> Face {
+        let base = if self.reset { Face::default() } else { face };
+        let mut attrs = match self.underline {
+            Some(underline) => FaceAttrs::pack(underline, %s.attrs.unpack().1),
+            None => base.attrs,
+        };
+        // TODO: underline_color
+        for (update, flag) in [
+            (self.bold, FaceAttrs::BOLD),
+            (self.italic, FaceAttrs::ITALIC),
+            (self.blink, FaceAttrs::BLINK),
+            (self.strike, FaceAttrs::STRIKE),
+        ] {
+            match update {
+                Some(true) => attrs = attrs.insert(flag),
+                Some(false) => attrs = attrs.remove(flag),
+                None => {}
+            }
+        }
+        Face {
+            fg: self.fg.or(%s.fg),
+            bg: self.bg.or(%s.bg),
+            attrs,
+        }
+    }
+""" % (flags_from, colours_from, colours_from)
+
+
+_APPLY_UNWRAP_OR = """    pub fn apply(&self, face: Face) -> Face {
+        let start = if self.reset { Face::default() } else { face };
+        let (old_style, old_flags) = start.attrs.unpack();
+        let style = self.underline.unwrap_or(old_style);
+        let attrs = [
+            (self.strike, FaceAttrs::STRIKE),
+            (self.bold, FaceAttrs::BOLD),
+            (self.blink, FaceAttrs::BLINK),
+            (self.italic, FaceAttrs::ITALIC),
+        ]
+        .into_iter()
+        .fold(FaceAttrs::pack(style, old_flags), |acc, (update, flag)| match update {
+            Some(true) => acc.insert(flag),
+            Some(false) => acc.remove(flag),
+            None => acc,
+        });
+        Face {
+            fg: match self.fg {
+                Some(color) => Some(color),
+                None => start.fg,
+            },
+            bg: if self.bg.is_some() { self.bg } else { start.bg },
+            attrs,
+        }
+    }
+"""
+_APPLY_RESET_RECURSE = """    pub fn apply(&self, mut face: Face) -> Face {
+        if self.reset {
+            let rest = FaceModify {
+                reset: false,
+                ..*self
+            };
+            return rest.apply(Face::default());
+        }
+"""
+_APPLY_UNDERLINE_SNAPSHOT = """    pub fn apply(&self, mut face: Face) -> Face {
+        let old_flags = face.attrs.unpack().1;
+        if self.reset {
+            face = Face::default();
+        }
+"""
+MUTANTS += [
+    # the seed itself: in the Some(underline) arm the flags come from the incoming face, not from the possibly reset base
+    {"id": "C06-product-seed-H-expression-style", "prop": "C06", "expect": "APPLY-PRODUCT/FaceModify::apply/reset+underline:flags",
+     "edits": [(F, _APPLY_WHOLE, _apply_expr("face"))]},
+    # the same slip in today's imperative spelling: flags snapshotted before the reset
+    {"id": "C06-product-underline-flags-snapshot-before-reset", "prop": "C06", "expect": "APPLY-PRODUCT/FaceModify::apply/reset+underline:flags",
+     "edits": [(F, _APPLY_HEAD, _APPLY_UNDERLINE_SNAPSHOT),
+               (F, "            face.attrs = FaceAttrs::pack(underline, face.attrs.unpack().1);\n", "            face.attrs = FaceAttrs::pack(underline, old_flags);\n")]},
+    # near misses: each single field still right, only a combination is wrong
+    {"id": "C06-product-colours-from-incoming-face", "prop": "C06", "expect": "APPLY-SEMANTICS/FaceModify::apply/reset",
+     "edits": [(F, _APPLY_WHOLE, _apply_expr("base", "face"))]},
+    {"id": "C06-product-reset-returns-early", "prop": "C06", "expect": "APPLY-PRODUCT/FaceModify::apply/reset+fg:fg",
+     "edits": [(F, "            face = Face::default();\n", "            return Face::default();\n")]},
+    {"id": "C06-product-reset-after-colours", "prop": "C06", "expect": "APPLY-PRODUCT/FaceModify::apply/reset+bg:bg",
+     "edits": [(F, _APPLY_HEAD + _APPLY_FG_BG, "    pub fn apply(&self, mut face: Face) -> Face {\n" + _APPLY_FG_BG + "        if self.reset {\n            face = Face::default();\n        }\n")]},
+    {"id": "C06-product-bg-only-without-fg", "prop": "C06", "expect": "APPLY-PRODUCT/FaceModify::apply/fg+bg:bg",
+     "edits": [(F, "            face.fg = Some(fg);\n        }\n        if let Some(bg) = self.bg {\n", "            face.fg = Some(fg);\n        } else if let Some(bg) = self.bg {\n")]},
+    {"id": "C06-product-underline-after-loop-stale-flags", "prop": "C06", "expect": "APPLY-PRODUCT/FaceModify::apply/underline+",
+     "edits": [(F, _APPLY_UNDERLINE + "        // TODO: underline_color\n" + _APPLY_LOOP,
+                "        let before = face.attrs.unpack().1;\n" + _APPLY_LOOP + _APPLY_UNDERLINE.replace("face.attrs.unpack().1", "before"))]},
+    # benign: the correct version of the refactoring the seed disguises itself as, and other spellings of the same function
+    {"id": "C06-benign-apply-expression-style", "prop": "C06", "benign": True, "edits": [(F, _APPLY_WHOLE, _apply_expr("base"))]},
+    {"id": "C06-benign-apply-unwrap-or-fold", "prop": "C06", "benign": True, "edits": [(F, _APPLY_WHOLE, _APPLY_UNWRAP_OR)]},
+    {"id": "C06-benign-apply-underline-after-loop", "prop": "C06", "benign": True,
+     "edits": [(F, _APPLY_UNDERLINE + "        // TODO: underline_color\n" + _APPLY_LOOP, _APPLY_LOOP + _APPLY_UNDERLINE)]},
+    {"id": "C06-benign-apply-reset-recurses-on-default", "prop": "C06", "benign": True, "edits": [(F, _APPLY_HEAD, _APPLY_RESET_RECURSE)]},
+    {"id": "C06-benign-apply-colours-via-with", "prop": "C06", "benign": True,
+     "edits": [(F, _APPLY_FG_BG, "        face = face.with_fg(self.fg.or(face.fg)).with_bg(self.bg.or(face.bg));\n")]},
+    {"id": "C06-benign-apply-debug-assert-reset", "prop": "C06", "benign": True,
+     "edits": [(F, "            face = Face::default();\n", "            face = Face::default();\n            debug_assert!(face.fg.is_none() && face.attrs == FaceAttrs::EMPTY);\n")]},
+]
